@@ -585,3 +585,129 @@ func scenC11(run *vlab.Run, sx, tmp string) {
 		run.Distinct(strings.Join(argsB, " ") + arpOut)
 	}
 }
+
+// ---------------------------------------------------------------------------
+// c13: bad target-list entries through the real binary: every bad entry leaves exactly one error
+// record on stderr (zap JSON line, level error) that names its cause, no frame for it, and the
+// valid entries around it are probed as if it were absent (processing may stop at a bad line).
+
+func init() { scenarios["c13"] = scenC13 }
+
+func scenC13(run *vlab.Run, sx, tmp string) {
+	rng := run.Rand("c13wire")
+	type badLine struct {
+		text, cause string
+		stops       bool
+	}
+	bads := []badLine{
+		{`{"port":80}`, "invalid ip", false}, {`{"ip":"","port":80}`, "invalid ip", false}, {`{"ip":"10.9.0.256","port":80}`, "invalid ip", false},
+		{`{"ip":"not-an-address","port":80}`, "invalid ip", false}, {`{"ip":"10.9.0.5"}`, "invalid port", false}, {`{"ip":"10.9.0.5","port":0}`, "invalid port", false},
+		{`{"ip":"10.9.0.5","port":`, "", true}, {`not json at all`, "", true}, {`[1,2,3]`, "", true},
+	}
+	n := run.Pick(48, 480)
+	emptyCache := writeFile(tmp, "arp.cache", "")
+	for i := 0; i < n; i++ {
+		if !run.Mine(i) {
+			continue
+		}
+		kind := []string{"tcp", "udp", "tcp"}[i%3]
+		nl := 3 + rng.Intn(12)
+		var sb strings.Builder
+		type want struct {
+			addr uint32
+			port uint16
+		}
+		var wants []want
+		nBad, stopped := 0, false
+		var causes []string
+		for k := 0; k < nl; k++ {
+			if rng.Intn(3) == 0 {
+				b := bads[rng.Intn(len(bads))]
+				if b.cause == "invalid port" && false {
+					continue
+				}
+				sb.WriteString(b.text + "\n")
+				if !stopped {
+					nBad++
+					causes = append(causes, b.cause)
+				}
+				if b.stops {
+					stopped = true
+				}
+				continue
+			}
+			a := uint32(0x0a090100) + uint32(rng.Intn(200))
+			p := uint16(1 + rng.Intn(65535))
+			fmt.Fprintf(&sb, "{\"ip\":\"%s\",\"port\":%d}\n", ipS(a), p)
+			if !stopped {
+				wants = append(wants, want{a, p})
+			}
+		}
+		file := sb.String()
+		args := []string{kind, "--json", "-i", "tap0", "--gwmac", gwMAC, "-a", emptyCache, "--exit-delay", "300ms", "-f", writeFile(tmp, "targets.jsonl", file)}
+		if rng.Intn(2) == 0 {
+			args = append(args, "--exclude", writeFile(tmp, "exclude.txt", "192.0.2.0/24\n"))
+		}
+		run.Case(fmt.Sprintf("c13w%03d", i), map[string]interface{}{"argv": args, "file": file})
+		res := RunCase(sx, &CaseSpec{Args: args, Setup: commonWorld("tap"), Timeout: 60 * time.Second})
+		run.Eval(1)
+		desc := map[string]interface{}{"argv": args, "file": file}
+		if !baseChecks(run, res, desc, false) {
+			continue
+		}
+		got := map[want]int{}
+		for _, f := range res.Frames("tap0") {
+			if _, a, p, ok := decodeProbe(kind, f, oracle.LinkEthernet); ok {
+				got[want{a, p}]++
+			}
+		}
+		exp := map[want]int{}
+		for _, w := range wants {
+			exp[w]++
+		}
+		// a parser may stop at any bad line: the probes must be a prefix-closed subset; with the current
+		// non-stopping classes (ip/port) processing continues, which is what the reference assumes; fewer
+		// probes are accepted only if everything missing lies after some bad line
+		okAll := true
+		for w, c := range got {
+			if c > exp[w] {
+				run.Violation("probe-for-bad-or-unknown-entry", fmt.Sprintf("%s:%d probed x%d, listed (valid, before a fatal line) x%d", ipS(w.addr), w.port, c, exp[w]), desc)
+				okAll = false
+			}
+		}
+		for w, c := range exp {
+			if got[w] < c && nBad == 0 {
+				run.Violation("valid-entry-lost", fmt.Sprintf("%s:%d listed x%d, probed x%d although the file has no bad line before it", ipS(w.addr), w.port, c, got[w]), desc)
+				okAll = false
+			}
+		}
+		var errLines []string
+		for _, l := range strings.Split(res.Stderr, "\n") {
+			if strings.Contains(l, `"level":"error"`) {
+				errLines = append(errLines, l)
+			}
+		}
+		if len(errLines) > nBad {
+			run.Violation("error-records-extra", fmt.Sprintf("%d bad entries (up to the first fatal one) but %d error records", nBad, len(errLines)), map[string]interface{}{"case": desc, "stderr": tailStr(res.Stderr, 1500)})
+			okAll = false
+		}
+		if len(errLines) < nBad && len(got) == len(exp) && res.Stall < 100*time.Millisecond {
+			// everything was processed to the end, so every bad entry must have left its record
+			run.Violation("error-record-missing", fmt.Sprintf("%d bad entries were passed over (all valid entries were probed) but only %d error records were written", nBad, len(errLines)), map[string]interface{}{"case": desc, "stderr": tailStr(res.Stderr, 1500)})
+			okAll = false
+		}
+		for k, l := range errLines {
+			if k < len(causes) && causes[k] != "" && len(errLines) == nBad && !strings.Contains(l, causes[k]) {
+				run.Violation("error-cause", fmt.Sprintf("error record %d does not state the cause %q of its entry: %.200s", k+1, causes[k], l), desc)
+				okAll = false
+			}
+		}
+		if okAll {
+			run.Count("bad_line_files_ok", 1)
+		}
+		run.Count("c13_wire_runs", 1)
+		run.Count("wire_bad_entries", int64(nBad))
+		run.Count("wire_error_records", int64(len(errLines)))
+		run.Distinct(file)
+	}
+}
